@@ -4,8 +4,8 @@
    remove_relative_path_marker are given closed forms here (their ties to the hand models of
    Select.v / Listing.v / FS.v are in HelpersGen.v).
    All statements are for ALL strings / path objects. *)
-From P7 Require Import Prelude PyPrims PyStr Path PathProofs.
-From P7gen Require HelpersPath.
+From P7 Require Import Prelude PyPrims PyStr PyRe Path PathProofs.
+From P7gen Require HelpersPath ArcName.
 From Coq Require Import ZifyBool.
 Open Scope Z_scope.
 
@@ -141,6 +141,39 @@ Proof.
     rewrite py_slice_from by (unfold py_len; cbn [length]; lia). reflexivity.
 Qed.
 
+(* ------------------------------------------------------------------ _sanitize_archive_arcname *)
+(* gen/ArcName.v: SevenZipFile._sanitize_archive_arcname translated for a str argument (os.sep = '/') *)
+Lemma gen_startswith_slash s : py_startswith s [47] = startswith_slash s.
+Proof.
+  destruct s as [|c r]; [reflexivity|]. unfold py_startswith. cbn [py_prefixb startswith_slash].
+  rewrite andb_true_r. apply Z.eqb_sym.
+Qed.
+
+Lemma gen_lstrip_slash s : py_lstrip s ([47] ++ [47]) = lstrip_slash s.
+Proof.
+  induction s as [|c r IH]; [reflexivity|]. cbn [py_lstrip lstrip_slash app existsb].
+  rewrite orb_false_r, orb_diag. destruct (c =? 47); [exact IH | reflexivity].
+Qed.
+
+Lemma gen_drive_prefix s : py_is_some (re_match_alpha_colon s) = drive_prefix s.
+Proof.
+  destruct s as [|c0 [|c1 r]]; try reflexivity. unfold re_match_alpha_colon, drive_prefix.
+  change (re_is_ascii_alpha c0) with (is_ascii_alpha c0). destruct (is_ascii_alpha c0 && (c1 =? 58)); reflexivity.
+Qed.
+
+Theorem gen_sanitize_archive_arcname_model s :
+  ArcName.sanitize_archive_arcname s = Path.sanitize_archive_arcname s.
+Proof.
+  unfold ArcName.sanitize_archive_arcname, Path.sanitize_archive_arcname, strip_leading, py_posix_isabs. cbv zeta.
+  repeat (progress (rewrite ?gen_lstrip_slash, ?gen_startswith_slash, ?gen_drive_prefix, ?orb_diag,
+                      ?(py_slice_from _ 2) by lia; change (Z.to_nat 2) with 2%nat)).
+  destruct (startswith_slash s) eqn:E1; cbv iota.
+  - destruct (drive_prefix (lstrip_slash s)) eqn:E2; cbv iota; rewrite ?E2; [|reflexivity].
+    destruct (startswith_slash (skipn 2 (lstrip_slash s))) eqn:E3; cbv iota; rewrite ?E3; reflexivity.
+  - rewrite ?E1. destruct (drive_prefix s) eqn:E2; cbv iota; rewrite ?E1, ?E2; [|reflexivity].
+    destruct (startswith_slash (skipn 2 s)) eqn:E3; cbv iota; rewrite ?E3; reflexivity.
+Qed.
+
 (* ------------------------------------------------------------------ non-vacuity *)
 Example ex_gen_check_rejects :                             (* "a/../../b" *)
   HelpersPath.check_archive_path [97; 47; 46; 46; 47; 46; 46; 47; 98] = Ok false.
@@ -153,4 +186,8 @@ Proof. reflexivity. Qed.
 Example ex_gen_strings :                                   (* "./a/" -> "./a" ; "./a/" -> "a/" *)
   HelpersPath.remove_trailing_slash [46; 47; 97; 47] = Ok [46; 47; 97] /\
   HelpersPath.remove_relative_path_marker [46; 47; 97; 47] = Ok [97; 47].
+Proof. split; reflexivity. Qed.
+Example ex_gen_sanitize :                                  (* "//c://tmp/x" -> "tmp/x"; "c:/d:/x" rejected *)
+  ArcName.sanitize_archive_arcname [47; 47; 99; 58; 47; 47; 116; 109; 112; 47; 120] = Ok [116; 109; 112; 47; 120] /\
+  ArcName.sanitize_archive_arcname [99; 58; 47; 100; 58; 47; 120] = Err EOther.
 Proof. split; reflexivity. Qed.
